@@ -44,7 +44,7 @@ CHECKS = {
          "an exception must be raised and everything yielded before must be the denotation of the earlier rows.",
          "TLC simulation of JellyProducer.Violate (fault injection confirmed invalid by the TLA+ reader) replayed into the real parsers"),
  "C05": ("model_checking", "6 C05",
-         "Finite-state proof per size and rule on the index-canonical quotient model (closed under every next key, hence all histories; the concrete-key model PyLookupKeys is checked by TLC to REFINE the quotient), transferred to the code by walking the same state graph on real LookupEncoder/LookupDecoder objects: "
+         "TLAPS proves Mirrored/Bounded/Resolves of the table pair for EVERY size, key set, rule and eviction choice (spec/proofs/LookupAbs.tla, re-checked on every run with a wrong variant that must fail), and TLC checks that the concrete-key model implements that abstraction. Finite-state proof per size and rule on the index-canonical quotient model (closed under every next key, hence all histories; the concrete-key model PyLookupKeys is checked by TLC to REFINE the quotient), transferred to the code by walking the same state graph on real LookupEncoder/LookupDecoder objects: "
          "state and transition counts equal, transition sets equal for small sizes, every real transition judged by the table contract; long random histories for sizes 8..4096; end-to-end histories through the serializer (tables of 1-4 slots, statements mixing resident and new keys) judged by TLC.",
          "TLC exhaustive model checking of spec/PyLookup.tla + state-graph comparison on real objects"),
  "C06": ("model_checking", "6 C06",
